@@ -278,6 +278,9 @@ func verifyServerExtensions(copts *compressionOptions, h http.Header) (*compress
 
 	_copts := *copts
 	copts = &_copts
+	// The server only gives up its context between messages if its response says so.
+	// Having asked for it in the offer is not enough.
+	copts.serverNoContextTakeover = false
 
 	for _, p := range ext.params {
 		switch p {
